@@ -4,44 +4,53 @@ import numpy as np
 
 from pyvc.contracts import contract, implies, bitlen  # noqa: F401
 from pyvc.values import *  # noqa: F401,F403
+from pyvc.spec import spec_fn
 
 I32_MIN, I32_MAX = -(2**31), 2**31 - 1
 I16_MIN, I16_MAX = -(2**15), 2**15 - 1
 
 
 # ---- gemmlowp / TFLite reference, as mathematical functions on Z (written from fixedpoint.h, not from the code) ----
+@spec_fn
 def tdiv(x, d):
     """C++ integer division (truncation toward zero), d > 0."""
     return x // d if x >= 0 else -((-x) // d)
 
 
+@spec_fn
 def sat32(x):
     return I32_MAX if x > I32_MAX else (I32_MIN if x < I32_MIN else x)
 
 
+@spec_fn
 def sat16(x):
     return I16_MAX if x > I16_MAX else (I16_MIN if x < I16_MIN else x)
 
 
+@spec_fn
 def srdhm32(a, b):
     """SaturatingRoundingDoublingHighMul<int32>."""
     return I32_MAX if (a == b and a == I32_MIN) else tdiv(a * b + (2**30 if a * b >= 0 else 1 - 2**30), 2**31)
 
 
+@spec_fn
 def srdhm16(a, b):
     return I16_MAX if (a == b and a == I16_MIN) else tdiv(a * b + (2**14 if a * b >= 0 else 1 - 2**14), 2**15)
 
 
+@spec_fn
 def sdhm16(a, b):
     """SaturatingDoublingHighMul<int16> (TFLite Micro hard_swish): truncating, no rounding."""
     return I16_MAX if (a == b and a == I16_MIN) else tdiv(a * b, 2**15)
 
 
+@spec_fn
 def rdbp(x, e):
     """RoundingDivideByPOT: round to nearest, ties away from zero."""
     return (x >> e) + (1 if (x & (2**e - 1)) > ((2**e - 1) >> 1) + (1 if x < 0 else 0) else 0)
 
 
+@spec_fn
 def rdbp_math(x, e):
     """The same, stated arithmetically: round-half-away-from-zero of x / 2**e."""
     return (x + 2**e // 2) >> e if x >= 0 else -((-x + 2**e // 2) >> e)
@@ -103,14 +112,14 @@ contract(
 contract(
     "ethosu.vela.fp_math:rounding_divide_by_pot", props=["C19"],
     variants={"%s,e=%d" % (k, e): dict(x=t, exponent=TConst(e)) for k, t in dict(INT_TYPES, **{"np.int32": I32}).items() for e in range(0, 32)},
-    requires=["I32_MIN <= x <= I32_MAX"],
+    requires=["I32_MIN <= x <= I32_MAX", "0 <= exponent <= 31"],
     ensures=["int(result) == rdbp(x, exponent)", "int(result) == rdbp_math(x, exponent)"],
     returns=PyInt,
 )
 contract(
     "ethosu.vela.fp_math:saturating_rounding_multiply_by_pot", props=["C19"],
     variants={"%s,e=%d" % (k, e): dict(x=t, exponent=TConst(e)) for k, t in INT_TYPES.items() for e in range(0, 31)},
-    requires=["I32_MIN <= x <= I32_MAX"],
+    requires=["I32_MIN <= x <= I32_MAX", "0 <= exponent <= 30"],
     ensures=["int(result) == sat32(x * 2**exponent)"],
     returns=PyInt,
 )
@@ -118,13 +127,14 @@ contract(
     "ethosu.vela.fp_math:rescale", props=["C19"],
     variants={"%s,%d->%d" % (k, s_, d): dict(integer_bits_src=TConst(s_), integer_bits_dst=TConst(d), x=t)
               for k, t in dict(INT_TYPES, **{"np.int32": I32}).items() for (s_, d) in ((5, 0), (0, 5), (0, 0), (12, 0))},
-    requires=["I32_MIN <= x <= I32_MAX"],
+    requires=["I32_MIN <= x <= I32_MAX", "(integer_bits_src, integer_bits_dst) in ((5, 0), (0, 5), (0, 0), (12, 0))"],
     ensures=["implies(integer_bits_src < integer_bits_dst, int(result) == rdbp(x, integer_bits_dst - integer_bits_src))",
              "implies(integer_bits_src >= integer_bits_dst, int(result) == sat32(x * 2**(integer_bits_src - integer_bits_dst)))"],
     returns=PyInt,
 )
 
 
+@spec_fn
 def mbqm(x, scale, shift):
     """TFLite MultiplyByQuantizedMultiplier(x, quantized_multiplier, shift') with Vela's shift convention
     (shift = 31 - shift'): left shift, SRDHM, rounding right shift."""
@@ -136,7 +146,55 @@ contract(
     "ethosu.vela.fp_math:multiply_by_quantized_multiplier", props=["C19"],
     variants={"%s,shift=%d" % (k, sh): dict(x=t, scale=TInt(lo=0, hi=I32_MAX), shift=TConst(sh)) for k, t in INT_TYPES.items() for sh in range(0, 63)},
     # reference precondition: the left-shifted operand must fit int32 (UB otherwise in the reference)
-    requires=["I32_MIN <= x * 2**(31 - shift if shift < 31 else 0) <= I32_MAX"],
+    requires=["0 <= shift <= 62", "0 <= scale <= I32_MAX", "I32_MIN <= x * 2**(31 - shift if shift < 31 else 0) <= I32_MAX"],
     ensures=["int(result) == mbqm(x, scale, shift)"],
+    returns=PyInt,
+)
+
+
+# ---- exponential (gemmlowp exp_on_interval_between_negative_one_quarter_and_0_excl / exp_on_negative_values) ------------
+@spec_fn
+def exp_interval_ref(a):
+    """gemmlowp fixedpoint.h, F = FixedPoint<int32, 0>; constants are gemmlowp's."""
+    constant_term = 1895147668          # exp(-1/8) in Q0.31
+    constant_1_over_3 = 715827883       # 1/3 in Q0.31
+    x = a + 2**28                       # a + 1/8
+    x2 = srdhm32(x, x)
+    x3 = srdhm32(x2, x)
+    x4 = srdhm32(x2, x2)
+    x4_over_4 = rdbp(x4, 2)
+    poly = rdbp(srdhm32(x4_over_4 + x3, constant_1_over_3) + x2, 1)
+    return constant_term + srdhm32(constant_term, x + poly)
+
+
+contract(
+    "ethosu.vela.fp_math:exp_on_interval_between_negative_one_quarter_and_0_excl", props=["C19"],
+    variants={"int": dict(a=PyInt), "np.int32": dict(a=I32), "np.int64": dict(a=I64)},
+    requires=["-2**29 <= a < 0"],
+    ensures=["int(result) == exp_interval_ref(a)", "0 < result <= I32_MAX"],
+    returns=PyInt,
+)
+
+
+@spec_fn
+def exp_neg_ref(a):
+    """gemmlowp exp_on_negative_values for InputF = FixedPoint<int32, 5> (Q5.26), result Q0.31."""
+    if a == 0:
+        return I32_MAX
+    one_quarter = 2**24
+    a_mod = (a & (one_quarter - 1)) - one_quarter
+    result = exp_interval_ref(sat32(a_mod * 2**5))
+    remainder = a_mod - a
+    for exponent, multiplier in ((-2, 1672461947), (-1, 1302514674), (0, 790015084), (1, 290630308), (2, 39332535), (3, 720401), (4, 242)):
+        if remainder & (1 << (26 + exponent)):
+            result = srdhm32(result, multiplier)
+    return result
+
+
+contract(
+    "ethosu.vela.fp_math:exp_on_negative_values", props=["C19"],
+    variants={"int": dict(a=PyInt), "np.int64": dict(a=I64)},
+    requires=["I32_MIN <= a <= 0"],
+    ensures=["int(result) == exp_neg_ref(a)", "0 <= result <= I32_MAX"],
     returns=PyInt,
 )
